@@ -156,10 +156,13 @@ func IsAbort(v interface{}) bool { _, ok := v.(violationAbort); return ok }
 // BaseTime is outside every consensus-upgrade activation window of config/consensus.go.
 var BaseTime = time.Date(2024, 3, 2, 12, 0, 0, 0, time.UTC) // a Saturday
 
+// ReplayMode is set by `vcheck --replay`.
+var ReplayMode bool
+
 // Execute performs one run of check c from tape.
 func Execute(c *Check, tier string, seed uint64, index int, tape *seamrt.Tape, trace bool, dir string) *Run {
 	r := &Run{Check: c, Tier: tier, Seed: seed, Index: index, Tape: tape, Faults: map[string]int{}, Probes: map[string]int{},
-		Cases: map[string]bool{}, States: map[string]struct{}{}, Dir: dir}
+		Cases: map[string]bool{}, States: map[string]struct{}{}, Dir: dir, Replay: ReplayMode}
 	if c.MaxChoices > 0 {
 		tape.Limit = c.MaxChoices
 	}
